@@ -59,3 +59,23 @@ Example D7_known_refuted : let s := run_doc "xhtml" 0 ".Im i.png cap
 .Tc -lof
 " in quiet s = true /\ wf_fragment (out_of s) = false.
 Proof. vm_compute. split; reflexivity. Qed.
+
+(* proved for every document of a sub-language and every world: text lines, .Bm and .Em blocks (any arguments),
+   XHTML fragment mode.  The output is read by the tag machine of Proofs/Tok.v: it ends in character data
+   with no element left open, and no closing tag ever mismatched (the machine would be stuck in Bad). *)
+Require Tok Inv Frag.
+Theorem C02_fragment_balanced_partial : forall fuel wd main bs, Forall Frag.in_frag bs ->
+  let s := snd (compile fuel (R "xhtml") 0 wd main bs) in
+  panicked s = None ->
+  Tok.run (flat (wout s)) (Tok.Txt, []) = (Tok.Txt, []) /\ In (curfile s, flat (wout s)) (files s).
+Proof. exact Frag.C02_fragment_balanced. Qed.
+Print Assumptions C02_fragment_balanced_partial.
+(* the per-handler steps of the open-element invariant that the lifting uses, for any state (also inside lists etc.) *)
+Theorem C02_text_keeps_invariant : forall s, Inv.Inv s -> Inv.markup_ok (mtags s) -> process s = true -> asis s = false ->
+  (par s = false -> verse s = false) -> Inv.Inv (Proc2.process_text s).
+Proof. exact Inv.Inv_process_text. Qed.
+Theorem C02_Bm_keeps_invariant : forall s, Inv.Inv s -> Inv.markup_ok (mtags s) -> process s = true -> inl s = false ->
+  (par s = false -> verse s = false /\ Proc1.scope_verse s = false) -> Inv.Inv (Proc2.macro_bm s).
+Proof. exact Inv.Inv_macro_bm. Qed.
+Theorem C02_Em_keeps_invariant : forall s, Inv.Inv s -> Inv.markup_ok (mtags s) -> process s = true -> inl s = false -> Inv.Inv (Proc1.macro_em s).
+Proof. exact Inv.Inv_macro_em. Qed.
